@@ -21,8 +21,17 @@ Fixpoint le_num (l : list byte) : N :=
 
 Inductive cseg := CL (l : list byte) | CR (n : list byte) (a b : byte).
 
+(** built from the last element backwards with one subtraction per byte (no division) *)
 Definition run_bytes (n a b : N) : list N :=
-  snd (N.iter n (fun st => let '(i, acc) := st in (i - 1, ((a + b * (i - 1)) mod 256) :: acc)) (n, [])).
+  let a := a mod 256 in
+  let b := b mod 256 in
+  match n with
+  | 0 => []
+  | _ =>
+      let last := (a + b * (n - 1)) mod 256 in
+      snd (N.iter n (fun st => let '(cur, acc) := st in
+                               ((if cur <? b then cur + 256 - b else cur - b), cur :: acc)) (last, []))
+  end.
 
 Fixpoint expand (s : list cseg) : list N :=
   match s with
